@@ -1,15 +1,21 @@
 pub mod c01;
 pub mod c02;
+pub mod c03;
+pub mod c04;
+pub mod c05;
 pub mod c06;
+pub mod pp;
 pub mod c08;
+pub mod c11;
 pub mod c12;
 pub mod c14;
 pub mod c15;
 pub mod c16;
+pub mod c18;
 
 use crate::core::run::{Check, Tier};
 
-pub const ALL: &[&str] = &["C01", "C02", "C06", "C08", "C12", "C14", "C15", "C16"];
+pub const ALL: &[&str] = &["C01", "C02", "C03", "C04", "C05", "C06", "C08", "C11", "C12", "C14", "C15", "C16", "C18"];
 
 pub fn build(id: &str, tier: Tier) -> Option<Check<'static>> {
     Some(match id {
@@ -19,6 +25,11 @@ pub fn build(id: &str, tier: Tier) -> Option<Check<'static>> {
         "C12" => c12::build(tier),
         "C08" => c08::build(tier),
         "C06" => c06::build(tier),
+        "C11" => c11::build(tier),
+        "C18" => c18::build(tier),
+        "C03" => c03::build(tier),
+        "C04" => c04::build(tier),
+        "C05" => c05::build(tier),
         "C02" => c02::build(tier),
         "C14" => c14::build(tier),
         _ => return None,
